@@ -39,6 +39,17 @@ TRUSTED = [
     "read before the only write; the three sort keys pinned verbatim: cmp_to_key(prefix_priority) = the exported rank, "
     "get_counters, int(not is_flat()); sorted(key=) = the model's stable insertion sort) - the EdgeRegister class itself "
     "(nested dictionaries keyed by bridged form and worker id) is tied to Reg by the differential runs only",
+    "harness/pygen.py + harness/pygen_pxloc.py regenerate I2N/Extracted/GenLazy.lean on every run from the source of "
+    "TestNode.is_unrolled, should_parse, is_flat, is_shared_root, is_object_root, get_stateful_objects; "
+    "isUnrolled_matches_source, shouldParse_matches_source, one_line_atoms_match_source (Props/C02.lean) prove the model's "
+    "isUnrolled / shouldParse equal to them (is_unrolled: on the shared root and flat nodes, RuntimeError otherwise; "
+    "should_parse: for restriction lists that are empty exactly for unrestricted workers).  Trusted: the translator; the "
+    "atom table of harness/pygen_pxloc.py (worker / worker is None = one optional worker; worker.net.long_suffix in "
+    "self.incompatible_workers = the pair (flat node, worker) is in State.incompatible; self.cleanup_nodes = the children "
+    "in dictionary order; setless_form / node.id / worker.id = Node.setless / Graph.nodeId / Worker.id, the substring tests "
+    "between them translated; shared_involved_workers = involved as a list, iterated for an existence test; the parameter "
+    "defaults worker=None and do='set' are checked textually); the one-line atoms are closed forms, the fields they stand "
+    "for are filled by the export of harness/travlib.py, which calls the real methods",
 ]
 CORPUS = os.path.join(vlib.VERIF, "corpus", PROP)
 
@@ -72,5 +83,13 @@ def extract(ctx):
         ctx.notes.append("I2N/Extracted/GenReady.lean changed: the source of TestNode.is_setup_ready / is_cleanup_ready / "
                          "drop_parent / drop_child / pick_parent / pick_child differs from the one the committed file was "
                          "generated from (the *_matches_source theorems are re-checked)")
+    import pygen_pxloc
+    if pygen_pxloc.extract_lazy(ctx):
+        ctx.notes.append("I2N/Extracted/GenLazy.lean changed: the source of TestNode.is_unrolled / should_parse / is_flat / "
+                         "is_shared_root / is_object_root / get_stateful_objects differs from the one the committed file "
+                         "was generated from (isUnrolled_matches_source, shouldParse_matches_source, "
+                         "one_line_atoms_match_source are re-checked)")
     ctx.extra["regenerated"] = ("lean/I2N/Extracted/GenReady.lean (TestNode.is_setup_ready, is_cleanup_ready, drop_parent, "
-                                "drop_child, pick_parent, pick_child via harness/pygen_pxready.py)")
+                                "drop_child, pick_parent, pick_child via harness/pygen_pxready.py); "
+                                "lean/I2N/Extracted/GenLazy.lean (TestNode.is_unrolled, should_parse, is_flat, "
+                                "is_shared_root, is_object_root, get_stateful_objects via harness/pygen_pxloc.py)")
